@@ -16,7 +16,8 @@ M("c11-action-arity-dropped", "R11.1", (DE, "impl Action for LengthAction {\n   
 # guard of the folding step weakened: idx > 0 removed
 M("c11-fold-guard-dropped", "R11.1", (PAR, "        if idx > 0 && (idx + 1) < stack.len() {", "        if (idx + 1) < stack.len() {"))
 # integer division added without a zero test
-M("c11-integer-division", "R11.1", (DM, "        (Data::Integer(i1), Data::Integer(i2)) => Data::Integer(i1 % i2),", "        (Data::Integer(i1), Data::Integer(i2)) => Data::Integer((i1 / i2) * 0 + i1 % i2),"))
+# (the division is evaluated before, i.e. outside, the checked_rem guard of the '%' arm: a zero divisor panics)
+M("c11-integer-division", "R11.1", (DM, "            (Data::Integer(i1), Data::Integer(i2)) => match i1.checked_rem(*i2) {", "            (Data::Integer(i1), Data::Integer(i2)) => match ((i1 / i2) * 0 + i1).checked_rem(*i2) {"))
 # any separator (e.g. ',') pushed as stack token, not only '.'
 M("c11-any-separator-as-stoken", "R11.2", (PAR, "                    } else if *sep == '.' {\n                        stack.push(ExpressionParserItem::SToken(Token::Separator('.')));",
                                            "                    } else {\n                        stack.push(ExpressionParserItem::SToken(Token::Separator(*sep)));"))
